@@ -11,7 +11,7 @@ ID = "C14"
 LEVEL = "fault_enumeration"
 TECHNIQUE = CLAIMS[ID]["technique"]
 RULE = (
-    "valid seeds = 8 definitions covering all four control x calibration combinations, 0..2 sensors, 1..2 readings; from "
+    "valid seeds = 9 definitions (one with a process noise of exactly 0) covering all four control x calibration combinations, 0..2 sensors, 1..2 readings; from "
     "each, EVERY single structural fault of every listed kind at every applicable position (overlap: each symbol into "
     "each other set; coverage: each update dropped / re-keyed to a control, calibration, undeclared symbol / extra; "
     "calibration map: each key dropped / renamed / replaced by a state / extras / map without calibration; process noise: "
@@ -37,7 +37,14 @@ def seeds():
         space.bind_def(2, 2, 0, order=1, sensors_shape=()),
         space.bind_def(1, 1, 2, order=0, sensors_shape=(1, 1)),
         space.bind_def(2, 0, 0, order=1, sensors_shape=()),
+        zero_noise(space.bind_def(2, 2, 1, order=2, sensors_shape=(1,), tag="-zeronoise")),
     ]
+
+
+def zero_noise(d):
+    """a control whose process noise is exactly 0 is not 'missing' or 'negative': the definition is valid"""
+    d["pnoise"] = [[d["pnoise"][0][0], 0.0]] + d["pnoise"][1:]
+    return d
 
 
 def cases(tier, seed):
